@@ -640,7 +640,8 @@ Definition succs (fx : fixes) (s : st) : list st := steps fx s (tau_reduced s).
 (* Internal actions that commute with every other action, that nothing can
    disable and that disable nothing: a stopper closing its stop channel, and a
    forwarder leaving when that does not close outChan (pinned: the once is used
-   up; f18: it is not the last one). Any run can be reordered so that they happen
+   up; f18: it is not the last one), and the only forwarder of a service channel
+   taking the next value off it. Any run can be reordered so that they happen
    as soon as they are enabled, and a quiescent end state has taken them all; the
    closure therefore replaces a state by its successor under such an action. *)
 Definition eager_action (fx : fixes) (s : st) : option action :=
@@ -648,12 +649,22 @@ Definition eager_action (fx : fixes) (s : st) : option action :=
   match (if stopall p then first_idx (fun r => negb (stp r)) (reqs p) 0 else None) with
   | Some k => Some (StStop k)
   | None =>
-      if (if f18 fx then 1 <? active p else once p) then
-        match first_idx (exit_ready s) (reqs p) 0 with
-        | Some k => Some (FwRecv k)
-        | None => None
-        end
-      else None
+      match (if (if f18 fx then 1 <? active p else once p) then first_idx (exit_ready s) (reqs p) 0
+             else None) with
+      | Some k => Some (FwRecv k)
+      | None =>
+          (* the only forwarder of a service channel takes the next value: nobody else
+             touches the head of that channel *)
+          option_map FwRecv (first_idx (fun r => match fw r, nth_error (svc s) (rc r) with
+                              | FRecv, Some ch =>
+                                  match buf ch with
+                                  | _ :: _ => length (filter (fun r' => rc r' =? rc r) (reqs p)) =? 1
+                                  | [] => false
+                                  end
+                              | _, _ => false
+                              end) (reqs p) 0)
+          
+      end
   end.
 
 (* closure under internal actions; None = out of fuel *)
